@@ -117,3 +117,69 @@ def entry_ok(e):
   if v != v:
     return ('nan',)
   return (n, (t, v))
+
+
+# ------------------------------------------------------------------------------- python2-style pickles
+def _py2_str(b, protocol, r=None):
+  """A python2 `str` (8-bit string) the way cPickle writes it."""
+  if protocol == 0:
+    out = []
+    for c in b:
+      if c == 0x27 or c == 0x5c:
+        out.append('\\' + chr(c))
+      elif 0x20 <= c < 0x7f:
+        out.append(chr(c))
+      else:
+        out.append('\\x%02x' % c)
+    return b"S'" + ''.join(out).encode('ascii') + b"'\n"
+  if len(b) < 256 and not (r is not None and r.random() < 0.2):
+    return b'U' + bytes([len(b)]) + b
+  return b'T' + struct.pack('<i', len(b)) + b
+
+
+def _py2_num(x, protocol):
+  if isinstance(x, bool):
+    x = int(x)
+  if isinstance(x, int):
+    if protocol == 0:
+      return (b'I%d\n' % x) if -2 ** 31 <= x < 2 ** 31 else (b'L%dL\n' % x)
+    if 0 <= x < 256:
+      return b'K' + bytes([x])
+    if 0 <= x < 65536:
+      return b'M' + struct.pack('<H', x)
+    if -2 ** 31 <= x < 2 ** 31:
+      return b'J' + struct.pack('<i', x)
+    if protocol == 2:
+      n = (x.bit_length() + 8) // 8
+      return b'\x8a' + bytes([n]) + x.to_bytes(n, 'little', signed=True)
+    return b'L%dL\n' % x
+  if protocol == 0:
+    return b'F' + repr(float(x)).encode('ascii') + b'\n'
+  return b'G' + struct.pack('>d', float(x))
+
+
+def encode_pickle_frame_py2(entries, protocol=2, r=None):
+  """The frame a python2 client writes for [(name, (timestamp, value))]: metric names are 8-bit strings holding UTF-8
+  (STRING / SHORT_BINSTRING / BINSTRING opcodes), not unicode objects.  No memo opcodes (they are optional)."""
+  assert protocol in (0, 1, 2)
+  out = [b'\x80\x02'] if protocol == 2 else []
+  out.append(b'(l' if protocol == 0 else b']')
+  if protocol != 0 and entries:
+    out.append(b'(')
+  for n, (t, v) in entries:
+    s = _py2_str(n.encode('utf-8'), protocol, r)
+    tt, vv = _py2_num(t, protocol), _py2_num(v, protocol)
+    if protocol == 2:
+      out.append(s + tt + vv + b'\x86\x86')
+    else:
+      out.append(b'(' + s + b'(' + tt + vv + b't' + b't')
+    if protocol == 0:
+      out.append(b'a')
+  if protocol != 0 and entries:
+    out.append(b'e')
+  out.append(b'.')
+  payload = b''.join(out)
+  back = pickle.loads(payload, encoding='utf-8')
+  assert [(a, tuple(b)) for a, b in back] == [(n, (t, v)) for n, (t, v) in entries] or any(
+    isinstance(x, float) and x != x for _, tv in entries for x in tv), (payload, back)
+  return frame(payload)
